@@ -122,6 +122,20 @@ CLAIMS.update({
    technique='contract-based deductive verification of the encoder entry points over enumerated option domains x symbolic content; bounded run-time contracts for serialiser arguments and CLI',
    design='4/C14'),
 })
+CLAIMS.update({
+ 'C08': dict(
+   category='proof',
+   text='Deductive: the structure of encode_sequence for message content of ARBITRARY length (symbolic sequence) in each mode, for version=1/9/10/26/27/40 and '
+        'symbol_count=1..16: 1..16 symbols, symbol_count honoured, chunks are consecutive balanced slices covering the message, one header per symbol with '
+        'position i, total-1 and one shared parity value, requested version for every symbol resp. one version that fits every chunk; divide_into_chunks for all 16 counts; '
+        'Structured Append header bits in _encode (glue); sizing with the header overhead (C04 obligations for is_sa); forwarding of make_sequence; argument refusals. '
+        'BOUNDED (labelled): fit of every chunk in its symbol, parity value, and reassembly of the decoded payloads on seeded real sequences read back with the '
+        'independent reference decoder. One known finding (symbol overflow when only version is given).',
+   note='Trusted: pyvc + z3; contracts of make_segment / find_version / parity used as summaries in the structure proof; bounded clauses are not counted as proved; '
+        'float ceil in the symbol count estimate treated as exact rational ceiling.',
+   technique='contract-based deductive verification of the sequence structure over symbolic content + bounded reference-decoder stand-in for fit / parity / reassembly',
+   design='4/C08'),
+})
 NOT_YET = {
 }
 ALL = ['C%02d' % i for i in range(1, 17)]
